@@ -25,7 +25,8 @@ def one(args):
         os.makedirs(t + "/out")
         env = dict(ENV, VERIF_REPO=t + "/repo", VERIF_OUT=t + "/out", VERIF_DIR="/verif")
         res = {}
-        for p in (PROPS if kind == "keep" else props):
+        only = [x for x in os.environ.get("ONLY_PROPS", "").split(",") if x]
+        for p in [q for q in (PROPS if kind == "keep" else props) if not only or q in only]:
             r = sh("%s -prop %s -tier quick" % (binary, p), env=env)
             rules = sorted(set(re.findall(r"^(?:VIOLATED|UNDECIDED|CHECKER-ERROR) (\S+)", r.stdout, re.M)))
             res[p] = {"exit": r.returncode, "rules": rules}
@@ -61,7 +62,13 @@ def main():
                 print("%-5s %-44s %s" % (kind, mid, verdict[:400]), flush=True)
     finally:
         shutil.rmtree(frozen, ignore_errors=True)
-    if not args and "--keep-only" not in sys.argv and "--break-only" not in sys.argv:
+    if os.environ.get("ONLY_PROPS"):
+        # merge the re-run of some checks into the results of the last full run
+        full = json.load(open("/verif/mutants/RESULTS.json"))
+        for mid, v in out.items():
+            full.setdefault(mid, {"kind": v["kind"], "result": {}})["result"].update(v["result"])
+        json.dump(full, open("/verif/mutants/RESULTS.json", "w"), indent=1, sort_keys=True)
+    elif not args and "--keep-only" not in sys.argv and "--break-only" not in sys.argv:
         json.dump(out, open("/verif/mutants/RESULTS.json", "w"), indent=1, sort_keys=True)
     print("mutants: %d  not as expected: %d" % (len(jobs), bad))
     sys.exit(1 if bad else 0)
